@@ -189,7 +189,7 @@ void run_rp(const char *op)
         ha_done(&ha); h_src_free(&ss); h_snk_free(&sk); free(built);
     } else if (!strcmp(op, "rp.emit")) {
         /* serial mem16 seq kind ftype fseq addr n val h:payload */
-        bool serial = aN(0) != 0, mem16 = aN(1) != 0;
+        bool serial = (aN(0) & 1) != 0, reattach = (aN(0) & 2) != 0, mem16 = aN(1) != 0;
         uint64_t kind = aN(3), n = aN(7);
         size_t plen = aHlen(9);
         size_t unit = (kind == 3 || (kind == 4 && mem16)) ? 2 : 1;
@@ -199,6 +199,12 @@ void run_rp(const char *op)
         BlockAllocator none; halloc hn; ha_make(&hn, &none, 128, -1);
         RegP p; rp_setup(&p, serial, mem16, source_empty, snk, &none);
         p.session.sequence = (uint16_t)aN(2);
+        if (reattach) {
+            /* mid-life reconfiguration with the same arguments: none of these calls starts a new session */
+            regp_use_channel(&p, serial ? RP_EP_SERIAL : RP_EP_TCP, source_empty, snk);
+            if (mem16) regp_use_memory16(&p, be_read16, be_write16); else regp_use_memory8(&p, be_read8, be_write8);
+            regp_use_allocator(&p, &none);
+        }
         RPFrame f; memset(&f, 0, sizeof f);
         f.header.type = (RPFrameType)aN(4); f.header.sequence = (uint16_t)aN(5); f.header.address = (uint32_t)aN(6);
         uint32_t addr = (uint32_t)aN(6), val = (uint32_t)aN(8);
